@@ -226,7 +226,7 @@ impl Prop for C16 {
     fn rule(&self) -> String {
         "LefLibrary values built directly (import takes the struct): 1-3 macros with SIZE, 0-3 pins with 1-3 ports, obstructions, rectangles/polygons/paths (with layer WIDTH) on 1-6 layer names; every coordinate is chosen as an integer number of raw units with x != y and spelled as a LefDecimal with a random admissible number of decimals \
          (0..6, incl. trailing zeros, negatives). Oracle: one abstract cell per macro, outline (0,0)-(size*s), per pin and per layer name the imported shapes equal the LEF geometries of that layer in order with every coordinate = value*s (s from the returned lib.units), layer resolved by name. \
-         Separate generator: one coordinate with a non-zero fraction of a raw unit => import must be Err. distinct_nontrivial = distinct LEF libraries (hash) having at least one shape."
+         Every third import goes into a caller-supplied layer set (half already populated by an earlier import) and is read through the caller's handle. Separate generator: one coordinate with a non-zero fraction of a raw unit (a fifth/sixth decimal, or 1e-13..1e-18 of representation noise) => import must be Err. distinct_nontrivial = distinct LEF libraries (hash) having at least one shape."
             .into()
     }
     fn assumptions(&self) -> Vec<String> {
